@@ -114,8 +114,11 @@ func c08claim(c *Ctx) {
 	ev := cfgx.ErrEvents(del[0])
 	c.requireCross(site(rm[0])+" after Delete(xr)", rm[0], union(wcFalse, ev.OK), "WasCreated(xr)==false or the success edge of client.Delete(xr)")
 
-	// the foreground flag: true whenever *cdp == CompositeDeleteForeground
+	// the foreground predicate: *cdp == CompositeDeleteForeground, tested directly
+	// or through a boolean that can only be true when the comparison is
+	// (`fg := cdp != nil && *cdp == Foreground`, `fg := false; if cmp { fg = true }`)
 	var fgTrue []cfgx.Edge
+	fgVals := map[ssa.Value]bool{}
 	for _, b := range fn.Blocks {
 		for _, in := range b.Instrs {
 			bo, ok := in.(*ssa.BinOp)
@@ -124,17 +127,46 @@ func c08claim(c *Ctx) {
 			}
 			for _, side := range []ssa.Value{bo.X, bo.Y} {
 				if s, ok := cfgx.ConstString(side); ok && s == "Foreground" && strings.HasSuffix(side.Type().String(), "common/v1.CompositeDeletePolicy") {
+					fgVals[bo] = true
 					t, _ := cfgx.CondEdges(bo)
 					fgTrue = append(fgTrue, t...)
 				}
 			}
 		}
 	}
-	if len(fgTrue) == 0 {
+	if len(fgVals) == 0 {
 		c.R.Unknown(load.FuncName(fn)+": foreground predicate", c.pos(fn.Pos()), "no comparison with xpv1.CompositeDeleteForeground found")
 		return
 	}
+	for changed := true; changed; {
+		changed = false
+		for _, b := range fn.Blocks {
+			for _, in := range b.Instrs {
+				phi, ok := in.(*ssa.Phi)
+				if !ok || fgVals[phi] {
+					continue
+				}
+				ls := leaves(phi)
+				all := len(ls) > 0
+				for _, l := range ls {
+					if !fgVals[l] {
+						all = false
+					}
+				}
+				if all {
+					fgVals[phi] = true
+					changed = true
+				}
+			}
+		}
+	}
 	var tr, fa []cfgx.Edge
+	for v := range fgVals {
+		if _, isPhi := v.(*ssa.Phi); isPhi {
+			t, f := cfgx.CondEdges(v)
+			tr, fa = append(tr, t...), append(fa, f...)
+		}
+	}
 	for _, phi := range cfgx.FlagPhis(fn, fgTrue) {
 		t, f := cfgx.CondEdges(phi)
 		tr, fa = append(tr, t...), append(fa, f...)
